@@ -128,15 +128,16 @@ class Runner:
             self.session.close()
         self.session, self.files = None, {}
 
-    def call(self, name, algs, start, length, bs, raw):
-        """-> ("hashes", alg|None, bytes) | ("error", message) | ("hang", evidence)"""
+    def call(self, name, algs, start, length, bs, raw, bad_handle=False):
+        """-> ("hashes", alg|None, bytes) | ("error", canonical status) | ("hang", evidence)"""
         from paramiko.sftp import CMD_EXTENDED, int64
 
         f = self._open(name)
 
         def go():
             if raw:
-                t, msg = f.sftp._request(CMD_EXTENDED, "check-file", f.handle, algs, int64(start), int64(length), bs)
+                handle = b"pv-no-such-handle" if bad_handle else f.handle
+                t, msg = f.sftp._request(CMD_EXTENDED, "check-file", handle, algs, int64(start), int64(length), bs)
                 msg.get_text()
                 alg = msg.get_text()
                 return alg, msg.get_remainder()
@@ -153,9 +154,42 @@ class Runner:
             self.hangs += 1
             self.drop()
             return ("hang", val)
-        if isinstance(val, IOError) and not isinstance(val, TimeoutError):  # a STATUS reply (client raises IOError)
-            return ("error", str(val))
+        st = canon_status(val)
+        if st is not None:  # a STATUS reply (the client raises IOError / EOFError with the server's text)
+            return ("error", st)
         raise InfraError("check-file call raised %r" % (val,))
+
+
+STATUS_TEXT = {"Block size too small": "too-small", "No supported hash types found": "no-alg",
+               "Invalid handle": "bad-handle", "Unable to stat file": "stat-fail", "Unable to hash file": "read-fail"}
+
+
+def code_class(code):
+    """what a client can observe of a status code (SFTPClient._convert_status)"""
+    return {1: "eof", 2: "enoent", 3: "eacces"}.get(code, "other")
+
+
+def canon_status(exc):
+    import errno
+
+    if isinstance(exc, TimeoutError) or not isinstance(exc, (IOError, EOFError)):
+        return None
+    text = exc.args[-1] if exc.args else ""
+    kind = STATUS_TEXT.get(text)
+    if kind is None:
+        return "error:%s:%s" % (type(exc).__name__, text)
+    if kind in ("stat-fail", "read-fail"):
+        cls = "eof" if isinstance(exc, EOFError) else \
+            {errno.ENOENT: "enoent", errno.EACCES: "eacces"}.get(getattr(exc, "errno", None), "other")
+        return "%s %s" % (kind, cls)
+    return kind
+
+
+def canon_model(rep):
+    parts = rep.split()
+    if parts and parts[0] in ("stat-fail", "read-fail"):
+        return "%s %s" % (parts[0], code_class(int(parts[1])))
+    return rep
 
 
 def classify_wrong(bs_eff):
@@ -198,50 +232,71 @@ def run(ctx):
                 checks.append((algs, st, ln, bs))
             if size == 200000 and k == 0:
                 checks.insert(0, ("pvtoy", 0, 0, 0))  # DESIGN.md section 7 witness
-            plan.append(("f%d_%d" % (idx, k), size, seed, k, checks))
+            plan.append(("f%d_%d" % (idx, k), size, seed, k, None, None, checks))
+        # failing handles: reads returning an error code from some offset on, stat() returning an error code
+        if idx % 2 == 0:
+            fault = (rng.choice([0, size // 2, max(size - 1, 0), size, size + 1]), rng.choice([1, 2, 3, 4, 5, 8]))
+            statc = rng.choice([None, 2, 3, 4])
+            checks = [(rng.choice(["pvtoy", "nope,pvtoy"]), st, ln, bs, False)
+                      for (st, ln, bs) in gen_params(rng, size, 6 if not ctx.thorough else 20)]
+            checks.append(("pvtoy", 0, 0, 300, True))  # handle not in the file table
+            checks.append(("nope", 0, 0, 0, True))
+            plan.append(("f%d_flt" % idx, size, seed, 0, fault, statc, checks))
     reqs = ["known " + ",".join(known_names)]
-    for name, size, seed, k, checks in plan:
+    for name, size, seed, k, fault, statc, checks in plan:
         reqs.append("file %d %d" % (size, seed))
         reqs.append("policy %d" % k)
-        for algs, st, ln, bs in checks:
-            reqs.append("check %s %d %d %d" % (algs, st, ln, bs))
+        reqs.append("fault %s %d" % (("-", 0) if fault is None else fault))
+        reqs.append("statfail %s" % ("-" if statc is None else statc))
+        for c in checks:
+            algs, st, ln, bs = c[:4]
+            reqs.append("%s %s %d %d %d" % ("checkbad" if len(c) > 4 and c[4] else "check", algs, st, ln, bs))
     model = ctx.driver("C32", reqs)
     mi = iter(model) if model is not None else None
     if mi is not None:
         next(mi)
 
-    mem = {name: (pattern(size, seed), policy_fn(k)) for name, size, seed, k, _ in plan}
+    mem = {name: (pattern(size, seed), policy_fn(k), fault, statc) for name, size, seed, k, fault, statc, _ in plan}
     srvmod._hash_class["pvtoy"] = ToyHash
     try:
         with lib.ReadCounter() as counter:
             runner = Runner(ctx, lib, counter, lambda: lib.Session(si_class=lib.make_mem_si(mem), timeout=900.0))
             try:
-                for name, size, seed, k, checks in plan:
+                for name, size, seed, k, fault, statc, checks in plan:
                     if mi is not None:
-                        next(mi), next(mi)
+                        next(mi), next(mi), next(mi), next(mi)
                     content = mem[name][0]
-                    for algs, st, ln, bs in checks:
+                    for c in checks:
+                        algs, st, ln, bs = c[:4]
+                        bad_handle = len(c) > 4 and c[4]
                         mrep = next(mi) if mi is not None else None
+                        if mrep is not None:
+                            mrep = canon_model(mrep)
                         if runner.hangs >= 3:
                             ctx.dist("skipped:after-3-hangs")
                             continue
                         case = {"file": "pattern(size=%d, seed=%d)" % (size, seed), "read_policy": k, "algs": algs,
                                 "start": st, "length": ln, "block": bs}
-                        res = runner.call(name, algs, st, ln, bs, raw=True)
+                        failing = fault is not None or statc is not None or bad_handle
+                        if failing:
+                            case.update({"read_fault": fault, "stat_code": statc, "bad_handle": bad_handle})
+                        res = runner.call(name, algs, st, ln, bs, raw=True, bad_handle=bad_handle)
                         chosen = next((a for a in algs.split(",") if a in known_names), None)
-                        want = expected(content, toy_h, st, ln, bs) if chosen else None
-                        ctx.case((size, seed, k, algs, st, ln, bs), bool(want))
+                        want = expected(content, toy_h, st, ln, bs) if chosen and not failing else None
+                        if failing:
+                            ctx.dist("failing-handle:" + (res[1].split()[0] if res[0] == "error" else res[0]))
+                        ctx.case((size, seed, k, algs, st, ln, bs, fault, statc, bad_handle), bool(want))
                         ctx.dist("policy:%s" % ("full" if k == 0 else "short"))
-                        ctx.dist("toy:" + ("no-alg" if not chosen else "too-small" if want is None else
-                                           "empty" if want == b"" else
-                                           "multi-chunk-block" if (bs or ln or size) > CHUNK else "hashes"))
+                        if not failing:
+                            ctx.dist("toy:" + ("no-alg" if not chosen else "too-small" if want is None else
+                                               "empty" if want == b"" else
+                                               "multi-chunk-block" if (bs or ln or size) > CHUNK else "hashes"))
                         if res[0] == "hashes":
                             impl = "hashes %s %s" % (res[1], hx(res[2]))
                         elif res[0] == "hang":
                             impl = "hang"
                         else:
-                            impl = {"Block size too small": "too-small",
-                                    "No supported hash types found": "no-alg"}.get(res[1], "error:" + res[1])
+                            impl = res[1]
                         if len(ctx.samples) < 4 and want:
                             ctx.sample({"case": case, "reply": impl[:80]})
                         if mrep is not None and mrep != impl:
@@ -249,6 +304,8 @@ def run(ctx):
                         # oracle with the toy hash (independent slicing)
                         if res[0] == "hang":
                             ctx.fail("hang:empty-read-at-eof", case, "server thread livelocked in _check_file: %r" % (res[1],))
+                        elif failing:
+                            pass  # reply kinds for failing handles are compared with the model only (C30's subject)
                         elif chosen and want is not None:
                             if res[0] != "hashes":
                                 ctx.fail("error-reply", case, impl)
@@ -325,18 +382,22 @@ def run(ctx):
 META = {
     "claimed": True,
     "level": ("Proved in Lean for EVERY streaming hash, file, start, length and block size and every handle read "
-              "policy that makes progress (short reads allowed): _check_file's answer equals the specification — "
-              "'Block size too small' iff the effective block is < 256, else the concatenation of H over the "
-              "consecutive block-sized pieces of the requested range clipped at EOF (checkFile_eq_spec), with both "
-              "loops finishing inside proved fuel bounds (terminates); the blocks are characterised by index and "
-              "tile the range (block_index, blocks_concat). Tied to sftp_server.py by differential runs through a real "
-              "client/server session (toy hash + short-read policies, byte-exact) and an md5/sha1-vs-hashlib oracle on "
-              "real files 0..400 KiB with a livelock-detecting watchdog, on every check."),
+              "policy that makes progress and does not fail (short reads allowed): _check_file's answer equals the "
+              "specification — 'Block size too small' iff the effective block is < 256, else the concatenation of H "
+              "over the consecutive block-sized pieces of the requested range clipped at EOF (checkFile_eq_spec); "
+              "for EVERY handle whatsoever (empty reads, reads or stat failing with an error code) both loops finish "
+              "inside proved fuel bounds (terminates); the blocks are characterised by index and tile the range "
+              "(block_index, blocks_concat); handle lookup and algorithm choice precede any read (request_cases). "
+              "Tied to sftp_server.py by differential runs through a real client/server session (toy hash, short-read "
+              "policies, failing handles, unknown handles/algorithms; reply kind, algorithm and hash bytes byte-exact) "
+              "and an md5/sha1-vs-hashlib oracle on real files 0..400 KiB with a livelock-detecting watchdog, on every "
+              "check."),
     "note": ("Trusted: Lean kernel + 3 standard axioms; hashlib's streaming law and the handle's read contract "
              "(hypotheses HashLaws / Env.Progress, proved for the toy instances); OS file I/O; the harness. "
              "'Promptly' is checked as 'terminates within the fuel bound' in the model and as 'no livelock' on the real "
-             "server (latency itself is not bounded). Handle lookup and the STATUS replies for a bad handle / a handle "
-             "whose read or stat returns an error code are not modelled (C30 covers reply well-formedness)."),
+             "server (latency itself is not bounded). Status codes of failing handles are compared up to what a client "
+             "can observe (EOF / ENOENT / EACCES / other). A handle that signals EOF with SFTP_EOF instead of b'' makes "
+             "a range running past EOF fail with that status (model and code agree; outside the statement)."),
     "technique": "Lean 4 proof (loop invariants over fuel-indexed loops, abstract hash/read parameters) + "
                  "differential correspondence through a real session + hashlib oracle with watchdog",
 }
